@@ -143,7 +143,7 @@ Proof.
   - intros P. apply (incl_map oname Hin). auto.
   - intros Hp P. apply (incl_map oname Hin). auto.
   - destruct H as (refs' & ob & Ho & Hb). exists refs', ob. split; [apply Hin; exact Ho|exact Hb].
-  - intros Ha P. apply (incl_map oname Hin). auto.
+  - intros P. apply (incl_map oname Hin). auto.
   - rewrite !covered_all_eq in *. destruct H as [Ha Hb]. split.
     + clear Hb IH2. induction b1 as [|x r IHr]; [exact I|]. simpl in *. inversion IH1; subst. destruct Ha as [Hx Hr]. split; eauto.
     + clear Ha IH1. induction b2 as [|x r IHr]; [exact I|]. simpl in *. inversion IH2; subst. destruct Hb as [Hx Hr]. split; eauto.
@@ -249,7 +249,7 @@ Proof.
       destruct I0 as [I1 I2]. split; [exact I1|]. simpl. apply incl_app; [exact I2|]. intros x [<-|[]]. exact Hn.
     + cbn [covered]. exists refs, ob. split; [apply in_or_app; right; left; reflexivity|]. rewrite covered_all_eq. exact B2.
   - cbn [emit_item covered]. pose proof (emit_var_ok c top s pre n a k refs Hi) as F.
-    destruct (emit_var c top s n a k refs) as [o s']. destruct F as [F1 F2]. split; [exact F1|]. intros _ P. auto.
+    destruct (emit_var c top s n a k refs) as [o s']. destruct F as [F1 F2]. split; [exact F1|]. intros P. auto.
   - cbn [emit_item]. rewrite go_eq.
     pose proof (items_ok_from c b1 IH1 top s pre Hi) as A. destruct (emit_items c top s b1) as [o1 s1]. destruct A as [A1 A2].
     rewrite go_eq.
